@@ -53,3 +53,12 @@ claim(
     TB, "per-variant template comparison of sibling size functions, event-order analysis of symbolic paths, pairing/accounting rule, who-may-write",
     "DESIGN.md §2 C05",
 )
+claim(
+    "C11", "other",
+    "Agreement of the VM and WASM task queues and the per-sample protocol, decided on MIR: same container/element type; Task's Ord "
+    "compares the due time only; the f64→sample-index conversion at enqueue is the same bare truncation on both runtimes; both "
+    "enqueue paths reject `when <= current`; both drain loops pop only under `when <= now`; in both run_dsp implementations the "
+    "plugin workers run before the dsp call. Exactly-once over histories, tie order and closure lifetime are not decided.",
+    TB, "sibling-implementation cross-check: template comparison of conversion/ordering expressions, dominance of guards, must-precede",
+    "DESIGN.md §2 C11",
+)
